@@ -87,6 +87,15 @@ func famConc(o *Out, r R, tier string) {
 	}
 	for i := 0; i < npairs; i++ {
 		a, b := genValidConfig(r), genValidConfig(r)
+		if i == 1 || i%10 == 9 { // B extends A's origin list (8+ patterns, same switches) by one origin that shares a tree path
+			a = cors.Config{Origins: []string{"https://example.com"}, Methods: []string{"PUT"}, MaxAgeInSeconds: 30}
+			for _, h := range genSiblings(r, []int{8, 9, 16, 17, 33}[(i/10)%5]) {
+				a.Origins = append(a.Origins, "https://"+h)
+			}
+			b = cloneCfg(a)
+			b.Origins = append(b.Origins, "https://zz"+a.Origins[1][len("https://")+1:])
+			b.Methods, b.MaxAgeInSeconds, b.PreflightSuccessStatus = []string{"DELETE"}, 60, 200
+		}
 		if i == 0 { // pairs that differ in every observable aspect
 			a = cors.Config{Origins: []string{"https://a.example"}, Credentialed: true, Methods: []string{"PUT"}, RequestHeaders: []string{"X-A"}, MaxAgeInSeconds: 30, ResponseHeaders: []string{"X-RA"}}
 			b = cors.Config{Origins: []string{"*"}, Methods: []string{"*"}, RequestHeaders: []string{"*"}, MaxAgeInSeconds: -1, ResponseHeaders: []string{"*"}, ExtraConfig: cors.ExtraConfig{PreflightSuccessStatus: 200}}
@@ -95,6 +104,13 @@ func famConc(o *Out, r R, tier string) {
 		reqs := probeSuite(&a, &b)
 		for k := 0; k < 4; k++ {
 			reqs = append(reqs, genRequest(&a, r))
+		}
+		for _, c := range []*cors.Config{&a, &b} { // the origin the last pattern denotes (probeSuite looks at the first three only)
+			if mo := matchingOrigins(c); len(mo) > 3 {
+				og := mo[len(mo)-1]
+				reqs = append(reqs, reqT{method: "GET", hdrs: http.Header{"Origin": {og}}},
+					reqT{method: "OPTIONS", hdrs: http.Header{"Origin": {og}, "Access-Control-Request-Method": {"PUT"}}})
+			}
 		}
 		for si, from := range states {
 			for _, dbgFrom := range []bool{false, true} {
@@ -106,7 +122,23 @@ func famConc(o *Out, r R, tier string) {
 						name string
 						f    func(m *cors.Middleware)
 					}
+					var held *cors.Config // the Config value through which the current state was installed (by pointer)
 					ops := []opT{
+						{"mutate-arg", func(m *cors.Middleware) {
+							if held == nil {
+								return
+							}
+							scribble(held.Origins)
+							scribble(held.Methods)
+							scribble(held.RequestHeaders)
+							scribble(held.ResponseHeaders)
+							held.Credentialed = !held.Credentialed
+							held.MaxAgeInSeconds, held.PreflightSuccessStatus = 7777, 299
+							held.PrivateNetworkAccess = !held.PrivateNetworkAccess
+							held.PrivateNetworkAccessInNoCORSModeOnly = !held.PrivateNetworkAccessInNoCORSModeOnly
+							held.DangerouslyTolerateInsecureOrigins = !held.DangerouslyTolerateInsecureOrigins
+							held.DangerouslyTolerateSubdomainsOfPublicSuffixes = !held.DangerouslyTolerateSubdomainsOfPublicSuffixes
+						}},
 						{"reconf", func(m *cors.Middleware) {
 							var arg *cors.Config
 							if to != nil {
@@ -119,7 +151,7 @@ func famConc(o *Out, r R, tier string) {
 						{"config", func(m *cors.Middleware) { _ = m.Config() }},
 					}
 					if si == ti {
-						ops = ops[1:]
+						ops = append(ops[:1:1], ops[2:]...)
 					}
 					for _, op := range ops {
 						if ti != 0 && op.name != "reconf" {
@@ -130,13 +162,23 @@ func famConc(o *Out, r R, tier string) {
 							n     int
 						}{{"Header", 1}, {"Header", 2}, {"WriteHeader", 1}, {"handler", 1}} {
 							for qi, q := range reqs {
-								if tier != "thorough" && (qi+i)%3 != 0 {
+								if tier != "thorough" && (qi+i)%3 != 0 && qi < len(reqs)-4 {
 									continue
 								}
 								m := newMW(from, dbgFrom)
 								ref := newMW(from, dbgFrom)
 								if m == nil || ref == nil {
 									continue
+								}
+								held = nil
+								if from != nil && op.name == "mutate-arg" { // install the same state through Reconfigure(&held)
+									hc := cloneCfg(*from)
+									held = &hc
+									m = new(cors.Middleware)
+									if m.Reconfigure(held) != nil {
+										continue
+									}
+									m.SetDebug(dbgFrom)
 								}
 								want := serveOnce(ref, q, http.Header{})
 								got, dead := serveInjected(m, q, http.Header{}, pt.point, pt.n, func() { op.f(m) })
@@ -513,6 +555,14 @@ func famAlias(o *Out, r R, tier string) {
 			scribble(in.Methods)
 			scribble(in.RequestHeaders)
 			scribble(in.ResponseHeaders)
+			// ... and every scalar field (the second one was handed over by pointer)
+			in.Credentialed = !in.Credentialed
+			in.MaxAgeInSeconds = 7777
+			in.PreflightSuccessStatus = 299
+			in.PrivateNetworkAccess = !in.PrivateNetworkAccess
+			in.PrivateNetworkAccessInNoCORSModeOnly = !in.PrivateNetworkAccessInNoCORSModeOnly
+			in.DangerouslyTolerateInsecureOrigins = !in.DangerouslyTolerateInsecureOrigins
+			in.DangerouslyTolerateSubdomainsOfPublicSuffixes = !in.DangerouslyTolerateSubdomainsOfPublicSuffixes
 		}
 		check("mutating-config-arguments")
 		// 2. mutate what Config() returned
@@ -552,6 +602,53 @@ func famAlias(o *Out, r R, tier string) {
 			}
 		}
 		check("request-history")
+		// 3c. argument reuse: the caller overwrites the arrays it once passed in (or got from Config()) with the values of
+		// another configuration, then reconfigures with a brand-new Config holding those values: the middleware must
+		// now behave as a fresh middleware built from them
+		for _, viaConfig := range []bool{false, true} {
+			held := cloneCfg(c1)
+			m3, e3 := cors.NewMiddleware(held)
+			if e3 != nil {
+				break
+			}
+			m3.SetDebug(debug)
+			src := &held
+			if viaConfig {
+				src = m3.Config()
+			}
+			tgt := cloneCfg(*src)
+			over := func(dst, tg, from []string) {
+				for k := range dst {
+					if k < len(from) {
+						dst[k], tg[k] = from[k], from[k]
+					}
+				}
+			}
+			over(src.Origins, tgt.Origins, c2.Origins)
+			over(src.Methods, tgt.Methods, c2.Methods)
+			over(src.RequestHeaders, tgt.RequestHeaders, c2.RequestHeaders)
+			over(src.ResponseHeaders, tgt.ResponseHeaders, c2.ResponseHeaders)
+			arg := cloneCfg(tgt)
+			err := m3.Reconfigure(&arg)
+			fm, ferr := cors.NewMiddleware(cloneCfg(tgt))
+			ok, detail := (err == nil) == (ferr == nil), "Reconfigure and NewMiddleware disagree on acceptance"
+			if ok && err == nil {
+				fm.SetDebug(debug)
+				for _, q := range probes {
+					if a, b := str(serveOnce(m3, q, pre).sx()), str(serveOnce(fm, q, pre).sx()); a != b {
+						ok, detail = false, "probe "+str(q.sx())+" answered "+a+" instead of "+b
+						break
+					}
+				}
+				if a, b := str(cfgSX(m3.Config())), str(cfgSX(fm.Config())); ok && a != b {
+					ok, detail = false, "Config() is "+a+" instead of "+b
+				}
+			}
+			if ok {
+				detail = ""
+			}
+			o.emitDirect("alias/argument-reuse", ok, str(cfgSX(&c1))+" -> "+str(cfgSX(&tgt))+" "+detail)
+		}
 		// 4. provenance of every installed slice, compared with the model's tags
 		for j := 0; j < 10; j++ {
 			q := genRequest(&c1, r)
